@@ -110,6 +110,11 @@ int c_dateutils_getdate(double day, int * date)
 {
     int year, month, nday, nbday;
 
+    /* day is converted to int: it must be a number in the int range
+     * (this also excludes nan and infinite values) */
+    if(!(day > -2147483648. && day < 2147483648.))
+        return DATEUTILS_ERROR + __LINE__;
+
     year = (int)(day * 1e-4);
     month = (int)(day * 1e-2) - year * 100;
     nday = (int)(day) - year * 10000 - month * 100;
